@@ -9,7 +9,8 @@ import copy
 
 from .. import docgen
 from ..engine import RunResult
-from ..fingerprint import digest, fingerprint
+from ..fingerprint import digest
+from ..fingerprint import public_fingerprint as fingerprint
 from ..repo import entrypoint as EP
 from ..repo import model as M
 from ..repo import mws
@@ -151,7 +152,10 @@ def _mask_graph(o, seen, depth=0):
     if isinstance(o, (M.Entry, M.String)):
         # the statement lists keys, types, other blocks, raw text and start lines as untouched;
         # the middleware's own metadata on the blocks it converts is not listed, so it is masked too
-        o._parser_metadata = "<M>"
+        try:
+            o.parser_metadata.clear()        # (through the public accessor: private attribute names are not ours to rely on)
+        except Exception:  # noqa
+            pass
     if isinstance(o, M.Entry):
         for f in o.fields:
             if isinstance(f.value, str):
